@@ -89,7 +89,11 @@ func C14(c *core.Ctx) error {
 	all := shapes.Corpus(shapes.Options{Depth: depth, Names: true, Forms: true, NamePairs: true})
 	tdir := filepath.Join(c.Scratch, "c14t")
 	core.WriteTree(tdir, map[string]string{"probe.templ": assets.Must("c14/probe.templ")})
-	extra := core.M{"require-template-schema-exists": false}
+	// replace-type towards an ALIAS of the original type: every string the data model offers still has to denote the
+	// source signature's types (an alias is identical to its target), whatever else the setting does internally
+	extra := core.M{"require-template-schema-exists": false,
+		"replace-type": core.M{core.ModPath + "/dep3": core.M{"T": core.M{"pkg-path": core.ModPath + "/dep3alias", "type-name": "T"}}}}
+	aliasFiles := map[string]string{"dep3alias/a.go": "package dep3alias\n\nimport dep \"example.com/m/dep3\"\n\n// T is dep3's T under another name\ntype T = dep.T\n"}
 	var combos []genCombo
 	for _, p := range []string{"inpkg-test", "exttest", "separate"} {
 		for _, f := range []string{"noop", "gofmt"} {
@@ -138,7 +142,7 @@ func C14(c *core.Ctx) error {
 			for _, cs := range cases {
 				byName[cs.Name] = cs
 			}
-			o, m, err := genRun(c, g, cases, "", nil, true)
+			o, m, err := genRun(c, g, cases, "", aliasFiles, true)
 			if err == errResources {
 				c.Skip("%s: %v", gname, err)
 				return
